@@ -213,6 +213,8 @@ func (w *worker) runSel(c *selCase, raw []byte) {
 	}
 	w.count("cases", 1)
 	w.count("kind:"+kinds, 1)
+	curVariant = w.n % 2 // alternate the implementations behind the function names from case to case
+	defer func() { curVariant = 0 }()
 	if !c.Det {
 		w.count("undetermined(5.7a)", 1)
 	}
@@ -262,6 +264,10 @@ func (w *worker) runSel(c *selCase, raw []byte) {
 			docProbe = nil
 			after := snap(doc)
 			if P["C04"] {
+				// ... and this call must not have touched the previous call's document either
+				if w.lastDoc != nil && snap(w.lastDoc) != w.lastSnap {
+					w.viol("C04", "earlier-document-modified-by-a-later-call", text, w.lastSnap, "this retrieval changed the document of the PREVIOUS retrieval ("+w.lastText+") to "+snap(w.lastDoc), kinds, raw)
+				}
 				w.lastDoc, w.lastSnap, w.lastText = doc, after, text
 				if probed != "" {
 					w.viol("C04", "document-modified-during-the-call", text, before, "a user function called during the retrieval saw the document as "+probed, kinds, raw)
